@@ -1856,4 +1856,250 @@ theorem ms_run (mc : MonCfg) (w0 : World) (hw0 : KeysNodup Obj.key w0.objs) (res
     | obj op => exact ms_obj mc s op h0
     | ns n lbl => exact ms_ns mc s n lbl h0
 
+/-! ### the cluster moves between AddMonitor and StartMonitor without losing anything -/
+
+/-- Nothing that mattered at AddMonitor time (world `w0`) is lost by StartMonitor time (world `w1`):
+namespaces that matched the namespace selector still match, objects that matched the binding's
+kind / label / field selector still exist under their key and still match. New objects, new
+namespaces, in-place modifications are all allowed. The excluded histories are the recorded
+finding `ghost-after-gap-delete`. -/
+def GapSafe (mc : MonCfg) (w0 w1 : World) : Prop :=
+  (∀ n, nsMatches mc w0 n = true → nsMatches mc w1 n = true) ∧
+  (∀ k o, kget Obj.key w0.objs k = some o → mc.pred none none o = true →
+    ∃ o', kget Obj.key w1.objs k = some o' ∧ mc.pred none none o' = true)
+
+theorem gapSafe_scope (mc : MonCfg) (w0 w1 : World) (h : GapSafe mc w0 w1) (ns nm : Option Nat) (k : Key)
+    (hk : (matching (mc.pred ns nm) w0.objs k).isSome = true) :
+    (matching (mc.pred ns nm) w1.objs k).isSome = true := by
+  unfold matching at hk ⊢
+  cases hg : kget Obj.key w0.objs k with
+  | none => simp [hg] at hk
+  | some o =>
+    rw [hg] at hk
+    have hp : mc.pred ns nm o = true := by
+      by_cases hq : mc.pred ns nm o = true
+      · exact hq
+      · simp [Option.filter, hq] at hk
+    rw [pred_eq] at hp
+    simp only [Bool.and_eq_true] at hp
+    obtain ⟨o', hg', hp'⟩ := h.2 k o hg hp.1.1
+    have hk0 : o.key = k := (mem_of_kget _ _ _ _ hg).2
+    have hk1 : o'.key = k := (mem_of_kget _ _ _ _ hg').2
+    have hq : mc.pred ns nm o' = true := by
+      rw [pred_eq]
+      simp only [Bool.and_eq_true]
+      refine ⟨⟨hp', ?_⟩, ?_⟩
+      · have := hp.1.2; unfold nsok at this ⊢; rw [hk1, ← hk0]; exact this
+      · have := hp.2; unfold nmok at this ⊢; rw [hk1, ← hk0]; exact this
+    rw [hg']
+    simp [Option.filter, hq]
+
+/-- registration replay in a later world: fine when nothing of this scope was lost -/
+theorem tracks_replay_gap (cfg : Cfg) (p : Obj → Bool) (objs0 objs1 : Cluster) (c : Cache)
+    (hn : KeysNodup Obj.key objs1) (h : Tracks cfg c (matching p objs0))
+    (hgap : ∀ k, (matching p objs0 k).isSome = true → (matching p objs1 k).isSome = true) :
+    Tracks cfg (((objs1.filter p).map (fun o => (EvType.added, o))).foldl
+      (fun c ev => (handleWatch cfg c ev.1 ev.2).1) c) (matching p objs1) := by
+  refine (tracks_foldl_watch cfg _ _ _ h).congr (fun k => ?_)
+  rw [foldl_adds, find?_reverse_of_nodup Obj.key _ (keysNodup_filter _ _ _ hn)]
+  have := kget_filter Obj.key p objs1 k hn
+  unfold kget at this
+  rw [this]
+  show (match matching p objs1 k with | some o => some o | none => matching p objs0 k) = _
+  cases h1 : matching p objs1 k with
+  | some o => rfl
+  | none =>
+    cases h0 : matching p objs0 k with
+    | none => rfl
+    | some o => have := hgap k (by simp [h0]); simp [h1] at this
+
+theorem mapInformers_id (m : Monitor) (f : Informer → Informer) (h : ∀ i ∈ m.informers, f i = i) :
+    m.mapInformers f = m := by
+  have hs : m.static.map f = m.static := by
+    have : ∀ i ∈ m.static, f i = id i := fun i hi => h i ((mem_informers m i).2 (Or.inl hi))
+    rw [List.map_congr_left this, List.map_id]
+  have hv : m.varying.map (fun p => (p.1, p.2.map f)) = m.varying := by
+    have : ∀ p ∈ m.varying, (fun p : Nat × List Informer => (p.1, p.2.map f)) p = id p := by
+      intro p hp
+      have : ∀ i ∈ p.2, f i = id i := fun i hi => h i ((mem_informers m i).2 (Or.inr ⟨p, hp, hi⟩))
+      simp only [id, List.map_congr_left this, List.map_id]
+    rw [List.map_congr_left this, List.map_id]
+  unfold Monitor.mapInformers
+  rw [hs, hv]
+
+theorem createInformers_notStarted (mc : MonCfg) (w : World) :
+    ∀ i ∈ (createInformers mc w).informers, i.started = false := by
+  intro i hi
+  rw [mem_informers] at hi
+  have hc : ∀ ns, ∀ j ∈ createForNs mc.cfg mc.namesEff (mc.list w) ns, j.started = false := by
+    intro ns j hj
+    unfold createForNs at hj
+    obtain ⟨nm, _, rfl⟩ := List.mem_map.1 hj
+    rfl
+  rcases hi with hi | ⟨p, hp, hi⟩
+  · rw [createInformers_static] at hi
+    obtain ⟨l, hl, hil⟩ := List.mem_flatten.1 hi
+    obtain ⟨ns, _, rfl⟩ := List.mem_map.1 hl
+    exact hc ns i hil
+  · rw [createInformers_varying] at hp
+    obtain ⟨n, _, rfl⟩ := List.mem_map.1 hp
+    exact hc (some n) i hi
+
+/-- before StartMonitor nothing reaches the monitor: cluster steps change the world only -/
+theorem gap_steps (mc : MonCfg) (gap : List MStep) (hg : ∀ st ∈ gap, st ≠ MStep.start) (s : MState)
+    (hs : s.started = false) (hi : ∀ i ∈ s.m.informers, i.started = false) :
+    (gap.foldl (mstep mc) s).m = s.m ∧ (gap.foldl (mstep mc) s).started = false := by
+  induction gap generalizing s with
+  | nil => exact ⟨rfl, hs⟩
+  | cons st t ih =>
+    simp only [List.foldl_cons]
+    have hst : (mstep mc s st).m = s.m ∧ (mstep mc s st).started = false := by
+      cases st with
+      | start => exact absurd rfl (hg _ List.mem_cons_self)
+      | obj op =>
+        refine ⟨?_, hs⟩
+        show s.m.mapInformers _ = s.m
+        apply mapInformers_id
+        intro i hii
+        unfold feed
+        simp [hi i hii]
+      | ns n lbl =>
+        refine ⟨?_, hs⟩
+        show (nsStep mc s.started s.w s.m n lbl).2 = s.m
+        unfold nsStep
+        simp [hs]
+    obtain ⟨h1, h2⟩ := ih (fun st' h' => hg st' (List.mem_cons_of_mem _ h')) (mstep mc s st) hst.2
+      (by rw [hst.1]; exact hi)
+    exact ⟨h1.trans hst.1, h2⟩
+
+theorem keysNodup_gap (mc : MonCfg) (gap : List MStep) (s : MState) (h : KeysNodup Obj.key s.w.objs) :
+    KeysNodup Obj.key (gap.foldl (mstep mc) s).w.objs := by
+  induction gap generalizing s with
+  | nil => exact h
+  | cons st t ih =>
+    simp only [List.foldl_cons]
+    apply ih
+    cases st with
+    | start => exact h
+    | obj op => exact keysNodup_applyOp _ op h
+    | ns n lbl => exact h
+
+theorem msync_start_gap (mc : MonCfg) (w0 w1 : World) (hn0 : KeysNodup Obj.key w0.objs)
+    (hn : KeysNodup Obj.key w1.objs) (hgap : GapSafe mc w0 w1) :
+    MSync mc w1 (startMonitor mc w1 (createInformers mc w0)) ∧
+    (mc.nsSel = true → ∀ n, n ∈ vkeys (startMonitor mc w1 (createInformers mc w0)) ↔ nsMatches mc w1 n = true) := by
+  have hnil : mc.nsSel = true → mc.namespaces = [] := fun hs => by simp [MonCfg.namespaces, hs]
+  have hstart : ∀ j : Informer, Tracks mc.cfg j.cache (matching (mc.pred j.ns j.name) w0.objs) →
+      ((startOne mc w1 j).started = true ∧
+        Tracks mc.cfg (startOne mc w1 j).cache
+          (matching (mc.pred (startOne mc w1 j).ns (startOne mc w1 j).name) w1.objs)) := by
+    intro j hj
+    rw [(startOne_scope mc w1 j).1, (startOne_scope mc w1 j).2]
+    unfold startOne
+    refine ⟨by rw [started_feed], ?_⟩
+    unfold feed
+    simp only [if_true]
+    exact tracks_replay_gap mc.cfg (mc.pred j.ns j.name) w0.objs w1.objs j.cache hn hj
+      (gapSafe_scope mc w0 w1 hgap j.ns j.name)
+  have hA : MSync mc w1 ((createInformers mc w0).mapInformers (startOne mc w1)) :=
+    { objsNodup := hn
+      synced := fun i hi => by
+        rw [mapInformers_informers] at hi
+        obtain ⟨j, hj, rfl⟩ := List.mem_map.1 hi
+        apply hstart j
+        rw [mem_informers] at hj
+        rcases hj with hj | ⟨p, hp, hj⟩
+        · rw [createInformers_static] at hj
+          obtain ⟨l, hl, hjl⟩ := List.mem_flatten.1 hj
+          obtain ⟨ns, _, rfl⟩ := List.mem_map.1 hl
+          exact tracks_created mc w0 hn0 ns j hjl
+        · rw [createInformers_varying] at hp
+          obtain ⟨n, _, rfl⟩ := List.mem_map.1 hp
+          exact tracks_created mc w0 hn0 (some n) j hj
+      vcover := fun p hp o => by
+        simp only [Monitor.mapInformers, List.mem_map] at hp
+        obtain ⟨q, hq, rfl⟩ := hp
+        rw [createInformers_varying] at hq
+        obtain ⟨n, _, rfl⟩ := List.mem_map.1 hq
+        simp only
+        rw [covers_map mc _ _ (startOne_scope mc w1) o]
+        exact createForNs_covers mc _ (some n) o
+      scover := fun o => by
+        show (∃ i ∈ (createInformers mc w0).static.map (startOne mc w1), _) ↔ _
+        rw [covers_map mc _ _ (startOne_scope mc w1) o, createInformers_static]
+        constructor
+        · rintro ⟨i, hi, hp⟩
+          obtain ⟨l, hl, hil⟩ := List.mem_flatten.1 hi
+          obtain ⟨ns, hns, rfl⟩ := List.mem_map.1 hl
+          have := (createForNs_covers mc (mc.list w0) ns o).1 ⟨i, hil, hp⟩
+          exact ⟨⟨ns, hns, this.1⟩, this.2⟩
+        · rintro ⟨⟨ns, hns, hp⟩, hok⟩
+          obtain ⟨i, hi, hpi⟩ := (createForNs_covers mc (mc.list w0) ns o).2 ⟨hp, hok⟩
+          exact ⟨i, List.mem_flatten.2 ⟨_, List.mem_map.2 ⟨ns, hns, rfl⟩, hi⟩, hpi⟩
+      staticNsNil := fun hs => by
+        show (createInformers mc w0).staticNs = []
+        rw [createInformers_staticNs, hnil hs]; rfl }
+  unfold startMonitor
+  refine ⟨msync_foldl_nsAdded mc w1 _ _ hA, fun hs n => ?_⟩
+  have hsn : ((createInformers mc w0).mapInformers (startOne mc w1)).staticNs = [] := hA.staticNsNil hs
+  show n ∈ vkeys (List.foldl _ ((createInformers mc w0).mapInformers (startOne mc w1)) _) ↔ _
+  rw [vkeys_foldl_nsAdded mc w1 _ _ n hsn]
+  simp only [hs, if_true]
+  have hv : n ∈ vkeys ((createInformers mc w0).mapInformers (startOne mc w1)) ↔
+      n ∈ dedupNames ((w0.nss.filter (fun p => p.2 == 1)).map (·.1)) := by
+    unfold vkeys
+    constructor
+    · intro h
+      obtain ⟨p, hp, rfl⟩ := List.mem_map.1 h
+      simp only [Monitor.mapInformers, List.mem_map] at hp
+      obtain ⟨q, hq, rfl⟩ := hp
+      rw [createInformers_varying] at hq
+      obtain ⟨k, hk, rfl⟩ := List.mem_map.1 hq
+      simp only [hs, if_true] at hk
+      exact (List.mem_filter.1 hk).1
+    · intro h
+      refine List.mem_map.2 ⟨(n, (createForNs mc.cfg mc.namesEff (mc.list w0) (some n)).map (startOne mc w1)), ?_, rfl⟩
+      simp only [Monitor.mapInformers, List.mem_map]
+      refine ⟨(n, createForNs mc.cfg mc.namesEff (mc.list w0) (some n)), ?_, rfl⟩
+      rw [createInformers_varying]
+      refine List.mem_map.2 ⟨n, ?_, rfl⟩
+      simp only [hs, if_true]
+      exact List.mem_filter.2 ⟨h, by simp [hnil hs]⟩
+  rw [hv, mem_existing mc w0 n hs, mem_existing mc w1 n hs]
+  constructor
+  · rintro (h | h)
+    · exact hgap.1 n h
+    · exact h
+  · exact Or.inr
+
+theorem ms_run_gap (mc : MonCfg) (w0 : World) (hw0 : KeysNodup Obj.key w0.objs)
+    (gap rest : List MStep) (hg : ∀ st ∈ gap, st ≠ MStep.start)
+    (hsafe : GapSafe mc w0 (gap.foldl (mstep mc) { w := w0, m := createInformers mc w0 }).w) :
+    MS mc (runMonitor mc w0 (gap ++ .start :: rest)) := by
+  unfold runMonitor
+  rw [List.foldl_append]
+  simp only [List.foldl_cons]
+  obtain ⟨hm, hst⟩ := gap_steps mc gap hg { w := w0, m := createInformers mc w0 } rfl
+    (createInformers_notStarted mc w0)
+  have hn1 := keysNodup_gap mc gap { w := w0, m := createInformers mc w0 } hw0
+  generalize gap.foldl (mstep mc) { w := w0, m := createInformers mc w0 } = s1 at hm hst hn1 hsafe
+  have h0 : MS mc (mstep mc s1 .start) := by
+    have := msync_start_gap mc w0 s1.w hw0 hn1 hsafe
+    have hm' : s1.m = createInformers mc w0 := hm
+    refine ⟨rfl, ?_, ?_⟩
+    · show MSync mc s1.w (startMonitor mc s1.w s1.m)
+      rw [hm']; exact this.1
+    · show mc.nsSel = true → ∀ n, n ∈ vkeys (startMonitor mc s1.w s1.m) ↔ nsMatches mc s1.w n = true
+      rw [hm']; exact this.2
+  generalize mstep mc s1 .start = s at h0
+  induction rest generalizing s with
+  | nil => exact h0
+  | cons st t ih =>
+    simp only [List.foldl_cons]
+    apply ih
+    cases st with
+    | start => exact ms_start_again mc s h0
+    | obj op => exact ms_obj mc s op h0
+    | ns n lbl => exact ms_ns mc s n lbl h0
+
 end ShellOp.Snapshot
